@@ -236,6 +236,11 @@ def main(argv):
             continue
         r = solve_file(Result("regress." + fn, "post", "unknown", smt_file=p), timeout=10.0)
         if fn.startswith("probe_"):
+            os.environ["PYVC_VACUITY_STRICT"] = "1"
+            try:
+                r = solve_file(Result("regress." + fn, "post", "unknown", smt_file=p), timeout=10.0)
+            finally:
+                os.environ.pop("PYVC_VACUITY_STRICT", None)
             if r.status != "proved" and r.vacuous:
                 print(f"ok      solver_regress/{fn:55s} verdict={r.status} vacuous=True (probe: {r.solver} says the hypotheses alone are {r.vacuity_probe})")
             else:
